@@ -812,6 +812,8 @@ func evaluateHeight(opts *Options, termHeight int) int {
 // NewTerminal returns new Terminal object
 func NewTerminal(opts *Options, eventBox *util.EventBox, executor *util.Executor) (*Terminal, error) {
 	input := trimQuery(opts.Query)
+	// The same limit as for the query edited later (truncateQuery)
+	input = input[:util.Min(len(input), maxPatternLength)]
 	var delay time.Duration
 	if opts.Sync {
 		delay = 0
